@@ -10,6 +10,7 @@ expressions of one parent are registered exactly once.
 from __future__ import annotations
 
 import ast
+import re
 
 from ..cfg import CFG, facts_at
 from ..core import AnalysisError, FuncNode, call_name, calls_in, last_attr, src, unconditionally_evaluated
@@ -38,8 +39,16 @@ def run(ctx):
     submits = [cfg.node_of(c) for c in calls_in(ex, shallow=True) if last_attr(c) in ("submit", "submit_script") and c.args and src(c.args[0]) == jv]
     if len(submits) < 2:
         raise AnalysisError("exec handler: executor.submit / submit_script calls not found", lc.EXEC)
+    # the key is also "held" on the false edge of `if <holder> is None or ...:` where <holder> = self._pending_jobs.get(key): an equal job is registered already
+    holder_vars = {src(a.targets[0]) for a in ast.walk(ex) if isinstance(a, ast.Assign) and isinstance(a.value, ast.Call) and src(a.value.func) == "self._pending_jobs.get"}
+    held_edges = []
+    for t in cfg.nodes:
+        if t.kind == "test" and isinstance(t.ast, ast.expr):
+            disj = t.ast.values if isinstance(t.ast, ast.BoolOp) and isinstance(t.ast.op, ast.Or) else [t.ast]
+            if any(src(d) in {f"{v} is None" for v in holder_vars} for d in disj):
+                held_edges += cfg.edge_nodes(t, "F")
     for s in submits:
-        ok = bool(store) and any(cfg.dominates(st, s) for st in store)
+        ok = bool(store) and (any(cfg.dominates(st, s) for st in store) or cfg.must_pass(cfg.entry, set(store) | set(held_edges), targets=[s]))
         r1.check(ok, f"{m.rel}:{lc.EXEC}:{src(s.ast)[:40]}", "the job is handed to the executor before it is stored in _pending_jobs: an equal call arriving meanwhile is submitted again", m.rel, s.lineno)
     cp_calls = [c for c in calls_in(ex, shallow=True) if call_name(c) == "self._check_pending_job"]
     cp = []
@@ -77,9 +86,14 @@ def run(ctx):
             if isinstance(n, ast.Call) and isinstance(n.func, ast.Attribute) and src(n.func.value) == "self._pending_jobs" and n.func.attr in ("get", "pop") and n.args:
                 keys.append((q, n.func.attr, n.args[0], n.lineno))
             elif isinstance(n, ast.Subscript) and src(n.value) == "self._pending_jobs":
-                keys.append((q, "store", n.slice, n.lineno))
+                keys.append((q, "pop" if isinstance(n.ctx, ast.Del) else "store", n.slice, n.lineno))
     shapes = set()
     for q, kind, key, line in keys:
+        if isinstance(key, ast.Name):
+            # a local that names the key: resolved through its single definition in the same function
+            kdefs = [a.value for a in ast.walk(m.funcs[q]) if isinstance(a, ast.Assign) and any(isinstance(t, ast.Name) and t.id == key.id for t in a.targets)]
+            if len(kdefs) == 1:
+                key = kdefs[0]
         parts = [src(e).split(".", 1)[1] if "." in src(e) else src(e) for e in key.elts] if isinstance(key, ast.Tuple) else [src(key)]
         shapes.add(tuple(parts))
         r2.check(tuple(parts) == ("eval_hash", "context_hash"), f"{m.rel}:{q}:_pending_jobs.{kind}", f"key shape {parts}", m.rel, line)
@@ -113,7 +127,11 @@ def run(ctx):
             raise AnalysisError(f"{hkey}: no finalising path", hkey)
     fz = m.func("Scheduler._finalize_job")
     t = src(fz)
-    ok = "self._pending_jobs.pop((job.eval_hash, job.context_hash), None)" in t and "self._jobs.remove(job)" in t and "self._pending_expr.pop(job, None)" in t
+    removes_pending = any(
+        (isinstance(n, ast.Call) and src(n.func) == "self._pending_jobs.pop") or (isinstance(n, ast.Delete) and any(isinstance(x, ast.Subscript) and src(x.value) == "self._pending_jobs" for x in n.targets))
+        for n in ast.walk(fz)
+    )
+    ok = removes_pending and "self._jobs.remove(job)" in t and "self._pending_expr.pop(job, None)" in t
     r3.check(ok, f"{m.rel}:Scheduler._finalize_job", "_finalize_job does not remove the job from _jobs, _pending_expr and _pending_jobs", m.rel, fz.lineno)
 
     r4 = ctx.rule("C06.4", "every distinct expression of a parent is registered exactly once under the looked-up key", floor=3)
@@ -196,3 +214,46 @@ def run(ctx):
 
     for construct, ok, msg, rel, line in context_tag_obligations(repo):
         r6.check(ok, construct, msg + "; an equal call created later in the same execution under that context misses the same-execution lookup and is executed again", rel, line)
+
+    # ---- C06.7 the pending table keeps the entry of a twin that is still running --------------------
+    # Jobs that opted out of de-duplication (prov=False, cache_scope NONE) still pass through the hand-off and through _finalize_job under the
+    # same (eval_hash, context_hash) key.  If they overwrite the entry, a provenance-recording duplicate no longer finds the running job
+    # (_check_pending_job refuses a holder without provenance); if whoever finishes first pops the key, the running twin becomes invisible.
+    r7 = ctx.rule("C06.7", "registration does not displace a provenance-recording holder; finalisation removes only the job's own entry", floor=2)
+    from ..cfg import facts_at as _facts7
+
+    exf = m.func(lc.EXEC)
+    cfg7 = CFG(exf)
+    stores = [n for n in cfg7.nodes if n.kind == "stmt" and isinstance(n.ast, ast.Assign) and any(isinstance(t, ast.Subscript) and src(t.value) == "self._pending_jobs" for t in n.ast.targets)]
+    if not stores:
+        raise AnalysisError(f"{lc.EXEC}: store into self._pending_jobs not found", lc.EXEC)
+    for st in stores:
+        facts = _facts7(cfg7, st)
+        holder_vars = {src(a.targets[0]) for a in ast.walk(exf) if isinstance(a, ast.Assign) and isinstance(a.value, ast.Call) and src(a.value.func) == "self._pending_jobs.get"}
+        looks = any(("self._pending_jobs" in f) or any(re.search(rf"\b{re.escape(v)}\b", f) for v in holder_vars) for f, t in facts) or any(
+            isinstance(d.test.ast, ast.BoolOp) and any(re.search(rf"\b{re.escape(v)}\b", src(d.test.ast)) for v in holder_vars) for d in cfg7.dominators().get(st, ()) if d.kind == "edge"
+        )
+        r7.check(
+            looks,
+            f"{m.rel}:{lc.EXEC}:pending-store-guarded",
+            f"`{src(st.ast)}` (line {st.lineno}) overwrites whatever job holds the key: after f(1) [running], f.options(prov=False)(1) takes the slot, and a third f(1) from another parent finds a holder "
+            "without provenance (refused by _check_pending_job) -- it is handed to an executor while the first is still running",
+            m.rel,
+            st.lineno,
+        )
+    fin = m.func("Scheduler._finalize_job")
+    cfgf = CFG(fin)
+    jv7 = fin.args.args[1].arg
+    rem = [n for n in cfgf.nodes if n.kind == "stmt" and n.ast is not None and ((isinstance(n.ast, ast.Delete) and any("self._pending_jobs" in src(t) for t in n.ast.targets)) or any(isinstance(c, ast.Call) and src(c.func) == "self._pending_jobs.pop" for c in ast.walk(n.ast)))]
+    if not rem:
+        raise AnalysisError("_finalize_job: removal from self._pending_jobs not found", "Scheduler._finalize_job")
+    for n in rem:
+        own = any(t and re.search(rf"self\._pending_jobs\.get\(.*\) is {re.escape(jv7)}$", f) for f, t in _facts7(cfgf, n))
+        r7.check(
+            own,
+            f"{m.rel}:Scheduler._finalize_job:removes-own-entry",
+            f"_finalize_job removes the key from self._pending_jobs without testing that the entry is this job (line {n.lineno}): a twin that opted out of de-duplication and finishes first removes the entry "
+            "of the job that is still running, so a later equal call is executed again instead of being collapsed onto it",
+            m.rel,
+            n.lineno,
+        )
